@@ -187,7 +187,14 @@ func runC06(cfg runCfg) error {
 	for i := 0; i < cfg.n; i++ {
 		name := fmt.Sprintf("c06-%d-%d", cfg.seed, i)
 		env := envs[[]int{0, 0, 0, 2, 2, 3, 3}[r.Intn(7)]]
-		limited := r.Intn(3) == 0
+		forceShared := i%7 == 3 // the directed queries on fixture shared are taken in turn, not by odds
+		forceAlike := i%7 == 5  // ... and so are two lookups at one insertion point that fail alike
+		if forceShared || forceAlike {
+			env = envs[3]
+		}
+		forceLimitLookup := i%7 == 1 // a limit near the number of lookup rounds together with a lookup that fails hard ...
+		forceLimitRoot := i%7 == 6   // ... or with a root request of another service that fails hard: taken in turn as well
+		limited := (r.Intn(3) == 0 && !forceAlike) || forceLimitLookup || forceLimitRoot
 		threeLevels := false
 		env.gw.es.MaxRequestsPerQuery = 50
 		env.world.data = genData(r, env.fed, dataOpts{nullProb: 0.1, safeStrings: true})
@@ -197,12 +204,12 @@ func runC06(cfg runCfg) error {
 		var run0 *e2eRun
 		for try := 0; try < 30; try++ {
 			qq, vv, doc := env.genBoundedQuery(r, qo, 300)
-			if env.fx.Name == "shared" && try == 0 && r.Intn(2) == 0 {
+			if env.fx.Name == "shared" && try == 0 && (r.Intn(2) == 0 || forceShared || forceAlike) {
 				// two lookups with one insertion point, resolved by two services, under two members of an interface
 				// (same response key for different fields in half of them)
 				k2 := []string{"z", "y"}[r.Intn(2)]
 				qq = "query Op { tools { label ... on Hammer { maker { z: nick } } ... on Gizmo { maker { " + k2 + ": age } } } }"
-				if r.Intn(2) == 0 {
+				if !forceAlike && (r.Intn(2) == 0 || (forceShared && (i/7)%2 == 0)) {
 					// three levels: the keepers come from two services (two parent steps), their rank from a third, at one
 					// insertion point; fault-free and without a limit, so that the orders differ in nothing but the order
 					qq = "query Op { tools { label ... on Gizmo { keeper { rank nick } } ... on Wrench { keeper { rank age } } } }"
@@ -238,7 +245,7 @@ func runC06(cfg runCfg) error {
 		if threeLevels {
 			limited = false
 		}
-		if !threeLevels && (r.Intn(2) == 0 || (limited && len(lookups) > 0 && r.Intn(3) > 0)) {
+		if !threeLevels && (r.Intn(2) == 0 || forceAlike || forceLimitLookup || forceLimitRoot || (limited && len(lookups) > 0 && r.Intn(3) > 0)) {
 			rq := run0.Requests[r.Intn(len(run0.Requests))]
 			if limited && len(lookups) > 0 { // a failing lookup round together with a limit near the number of rounds
 				rq = lookups[r.Intn(len(lookups))]
@@ -247,8 +254,19 @@ func runC06(cfg runCfg) error {
 			if r.Intn(3) == 0 { // an answer with data AND errors: what it contributes must not depend on when it arrives
 				kind = "errors_partial"
 			}
+			if forceLimitLookup || forceLimitRoot {
+				kind = []string{"status", "transport", "errors_null"}[(i/7)%3]
+			}
+			if forceLimitRoot {
+				// a root request whose service is not the one the lookups go to, when there is one
+				for _, cand := range run0.Requests {
+					if faultTarget(env.fed, cand) == "root" && (len(lookups) == 0 || cand.Svc != lookups[0].Svc) {
+						rq = cand
+					}
+				}
+			}
 			faults = append(faults, faultSpec{Svc: rq.Svc, Target: faultTarget(env.fed, rq), Kind: kind})
-			if len(lookups) >= 2 && !limited && r.Intn(2) == 0 {
+			if len(lookups) >= 2 && !limited && (r.Intn(2) == 0 || forceAlike) {
 				// two lookups failing alike (same failure kind, hence the same message; often at one insertion point, hence the
 				// same path): each failure is reported, by its own error, whichever is answered first
 				a := r.Intn(len(lookups))
